@@ -1,12 +1,6 @@
-"""AST rules on Spline / BSpline / cspline_eval_* shared by C12 and C13.
+"""AST rule X1 on cspline_eval_vs shared by C11 and C13 (the Spline / BSpline member-function rules moved to props/splinem.py, engine M).
 
-S1  lock-step of the five per-segment vectors of Spline (every size-changing site changes all five alike)
-S2  index frame in Spline::crop (source vectors indexed relative to i0, result vectors not)
-S3  ConstantVelocity scaling is degree-generic (factor * K == T for every K) + Bernstein identity sum_i Bcum_i(u) = K*u
-S4  optional outputs (vel, acc) defined on every path to a return
-S5  chain rule by dimension analysis (vel gets dU/dT, acc its square; u is a spline parameter)
-S6  concat_global / concat_local copy segment i of `other` to slot N1+i for all five vectors, shifting end times by t_max
-Q2  BSpline window and clamping (t_max formula, take(K+1) after drop(istar), clamped branches)
+X1  one loop iteration of cspline_eval_vs abstracted into a free Lie-algebra normal form and compared with the product-rule recursion
 """
 import re
 from fractions import Fraction
@@ -24,753 +18,6 @@ def funcs(idx, qname):
             and A.body(d.node) is not None]
 
 
-def one(rep, idx, qname):
-    fs = funcs(idx, qname)
-    if len(fs) != 1:
-        rep.broke("expected exactly one definition of %s, found %d" % (qname, len(fs)))
-        return None
-    return fs[0]
-
-
-def local_defs(node):
-    out = {}
-    for x in A.walk(node):
-        if x.get("kind") == "VarDecl" and A.kids(x):
-            ks = [k for k in A.kids(x)]
-            out[x.get("name")] = A.to_expr(ks[-1])
-    return out
-
-
-def dep_names(e, locs, seen=None):
-    """names an expression depends on, transitively through local definitions"""
-    if seen is None:
-        seen = set()
-    for n in A.refs(e):
-        if n in seen:
-            continue
-        seen.add(n)
-        if n in locs:
-            dep_names(locs[n], locs, seen)
-    return seen
-
-
-def member_of_this(e):
-    """name if e is this->name / implicit member, else None"""
-    if e[0] == "member" and e[1] == ("this",):
-        return e[2]
-    return None
-
-
-def subscripts(node):
-    """yield (base expr, index expr, ast node) for every a[i] in node"""
-    for x in A.walk(node):
-        k = x.get("kind")
-        if k in ("ArraySubscriptExpr", "CXXOperatorCallExpr"):
-            e = A.to_expr(x)
-            if e[0] == "sub" and len(e[2]) == 1:
-                yield e[1], e[2][0], x
-
-
-# --------------------------------------------------------------------------------------------
-def check_s1(rep, idx):
-    rep.rule("S1", "Spline: every size-changing site changes all five per-segment vectors alike", minimum=7)
-    # constructors
-    ctors = funcs(idx, "Spline::Spline")
-    if len(ctors) < 3:
-        rep.broke("S1: %d Spline constructors with bodies found (>=3 confirmed by hand)" % len(ctors))
-    for d in ctors:
-        sizes = {}
-        delegating = False
-        for c in A.kids(d.node):
-            if c.get("kind") == "CXXCtorInitializer":
-                if "anyInit" not in c:
-                    delegating = True
-                    continue
-                name = c.get("anyInit", {}).get("name")
-                if name in FIVE:
-                    init = A.kids(c)
-                    e = A.to_expr(init[0]) if init else ("init", [])
-                    n = None
-                    if e[0] == "init":
-                        n = len(e[1])
-                    elif e[0] == "ctor":
-                        inner = [a for a in e[2] if a != ("default",)]
-                        if len(inner) == 1 and inner[0][0] == "init":
-                            n = len(inner[0][1])
-                        elif not inner:
-                            n = 0
-                    sizes[name] = n
-        if delegating or (not sizes and any(c.get("kind") == "CXXCtorInitializer" for c in A.kids(d.node)) and
-                          not any(c.get("anyInit", {}).get("name") in FIVE + ["m_g0"] for c in A.kids(d.node) if c.get("kind") == "CXXCtorInitializer")):
-            rep.instance("S1", "Spline::Spline", "ctor@delegating", ok=True, nontrivial=False, sample={"file": fe.rel(d.file), "line": d.line})
-            continue
-        for x in A.walk(A.body(d.node)):
-            if x.get("kind") in ("CallExpr", "CXXMemberCallExpr"):
-                e = A.to_expr(x)
-                if e[0] == "mcall" and e[2] == "resize" and member_of_this(e[1]) in FIVE and e[4] and e[4][0][0] == "num":
-                    sizes[member_of_this(e[1])] = int(e[4][0][1])
-        for m in FIVE:
-            sizes.setdefault(m, 0)
-        vals = set(sizes.values())
-        ok = len(vals) == 1 and None not in vals
-        rep.instance("S1", "Spline::Spline", "ctor@%s" % sorted(sizes.items()), ok=ok, sample={"file": fe.rel(d.file), "line": d.line, "sizes": sizes})
-        if not ok:
-            rep.violation(Finding("S1", "Spline::Spline", "ctor", "constructor leaves the per-segment vectors with different lengths: %s" % sizes, d.file, d.line))
-    # members that resize / reserve
-    for qn in ("Spline::reserve", "Spline::concat_global", "Spline::concat_local"):
-        d = one(rep, idx, qn)
-        if d is None:
-            continue
-        calls = {}
-        for x in A.walk(A.body(d.node)):
-            if x.get("kind") in ("CallExpr", "CXXMemberCallExpr"):
-                e = A.to_expr(x)
-                if e[0] == "mcall" and e[2] in ("resize", "reserve", "push_back", "emplace_back", "pop_back", "erase", "insert", "clear") and member_of_this(e[1]) in FIVE:
-                    calls.setdefault((e[2], A.show(e[4])), set()).add(member_of_this(e[1]))
-        ok = bool(calls) and all(ms == set(FIVE) for ms in calls.values())
-        rep.instance("S1", qn, "resize-sites", ok=ok, sample={"file": fe.rel(d.file), "line": d.line, "sites": {str(k): sorted(v) for k, v in calls.items()}})
-        if not ok:
-            bad = {str(k): sorted(set(FIVE) - v) for k, v in calls.items() if v != set(FIVE)}
-            rep.violation(Finding("S1", qn, "resize-sites", "size-changing call not applied to all five per-segment vectors; missing: %s" % (bad or "no size-changing call found"), d.file, d.line))
-    # any other member function that changes a size of one of the five must be in the list above
-    known = {"Spline::reserve", "Spline::concat_global", "Spline::concat_local", "Spline::Spline", "Spline::crop"}
-    for d in idx:
-        if d.kind in A.FUNCS and d.pattern and d.qname.startswith("Spline::") and d.qname not in known and A.body(d.node) is not None:
-            for x in A.walk(A.body(d.node)):
-                if x.get("kind") in ("CallExpr", "CXXMemberCallExpr"):
-                    e = A.to_expr(x)
-                    if e[0] == "mcall" and e[2] in ("resize", "push_back", "emplace_back", "pop_back", "erase", "insert", "clear") and member_of_this(e[1]) in FIVE:
-                        f, l = A.loc(x)
-                        rep.broke("S1: new size-changing site %s.%s in %s (%s:%s) is not covered by the lock-step rule" % (member_of_this(e[1]), e[2], d.qname, fe.rel(f), l))
-    # crop: result assembled from five locals of equal constructed length
-    d = one(rep, idx, "Spline::crop")
-    if d is not None:
-        locs = {}
-        for x in A.walk(A.body(d.node)):
-            if x.get("kind") == "VarDecl" and "vector" in x.get("type", {}).get("qualType", ""):
-                ks = A.kids(x)
-                sz = None
-                if ks:
-                    e = A.to_expr(ks[-1])
-                    if e[0] in ("ctor",) and e[2]:
-                        sz = A.show(e[2][0])
-                    elif ks[-1].get("kind") == "ParenListExpr":
-                        sz = A.show(A.to_expr(A.kids(ks[-1])[0]))
-                    else:
-                        sz = A.show(e)
-                locs[x.get("name")] = sz
-        assigned = {}
-        for x in A.walk(A.body(d.node)):
-            if x.get("kind") in ("BinaryOperator", "CXXOperatorCallExpr"):
-                e = A.to_expr(x)
-                if e[0] == "op" and e[1] == "=" and e[2][0] == "member" and e[2][1] == ("ref", "ret", e[2][1][2] if len(e[2][1]) > 2 else None) and e[2][2] in FIVE:
-                    src = [n for n in A.refs(e[3]) if n in locs]
-                    assigned[e[2][2]] = locs.get(src[0]) if src else None
-        ok = set(assigned) == set(FIVE) and len(set(assigned.values())) == 1 and None not in assigned.values()
-        rep.instance("S1", "Spline::crop", "result-assembly", ok=ok, sample={"file": fe.rel(d.file), "line": d.line, "lengths": assigned})
-        if not ok:
-            rep.violation(Finding("S1", "Spline::crop", "result-assembly", "cropped spline is not assembled from five vectors of one common length: %s" % assigned, d.file, d.line))
-
-
-def check_s2(rep, idx):
-    rep.rule("S2", "Spline::crop: source per-segment vectors indexed relative to i0, result vectors not; every source vector copied for every kept segment", minimum=15)
-    d = one(rep, idx, "Spline::crop")
-    if d is None:
-        return
-    b = A.body(d.node)
-    locs = local_defs(b)
-    if "i0" not in locs:
-        rep.broke("S2: crop has no local i0 (first kept segment); rule needs re-confirmation")
-        return
-    result_vecs = {n for n, e in locs.items() if n in ("end_t", "end_g", "vs", "seg_T0", "seg_Del")}
-
-    def has_call(e):
-        if isinstance(e, tuple):
-            if e and e[0] in ("call", "mcall"):
-                return True
-            return any(has_call(x) for x in e[1:])
-        if isinstance(e, list):
-            return any(has_call(x) for x in e)
-        return False
-    # locals defined by pure arithmetic are substituted; locals computed by calls (segment counts, lookups) are opaque symbols
-    arith = {k: v for k, v in locs.items() if k != "i0" and not has_call(v)}
-
-    def slope(ix):
-        """d(index)/d(i0) with every other symbol held fixed; None if not evaluable"""
-        e = subst(ix, arith)
-        names = sorted(n for n in A.refs(e) if n != "i0")
-        vals = []
-        for a in (3, 4):
-            env = {n: 11 + 7 * k for k, n in enumerate(names)}
-            env["i0"] = a
-            try:
-                vals.append(pe.ev(e, env))
-            except pe.PEError:
-                return None
-        return vals[1] - vals[0]
-
-    def subst(e, m, depth=0):
-        if depth > 20 or not isinstance(e, tuple):
-            return e
-        if e[0] == "ref" and e[1] in m:
-            return subst(m[e[1]], m, depth + 1)
-        return tuple(subst(x, m, depth) if isinstance(x, tuple) else ([subst(y, m, depth) for y in x] if isinstance(x, list) else x) for x in e)
-
-    for base, ix, node in subscripts(b):
-        f, l = A.loc(node)
-        m = member_of_this(base)
-        if m in FIVE:
-            sl = slope(ix)
-            if sl is None:
-                rep.broke("S2: cannot evaluate index `%s` of %s in crop" % (A.show(ix), m))
-                continue
-            ok = sl == 1
-            rep.instance("S2", "Spline::crop", "%s[%s]" % (m, A.show(ix)), ok=ok, sample={"file": fe.rel(f), "line": l, "frame": "source", "d_index/d_i0": str(sl)})
-            if not ok:
-                rep.violation(Finding("S2", "Spline::crop", "%s[%s]" % (m, A.show(ix)),
-                                      "source vector %s is indexed with `%s`, which does not move with the first kept segment i0 (d index/d i0 = %s): the wrong "
-                                      "segment is read whenever the crop starts in a later segment" % (m, A.show(ix), sl), f, l))
-        elif base[0] == "ref" and base[1] in result_vecs:
-            sl = slope(ix)
-            if sl is None:
-                rep.broke("S2: cannot evaluate index `%s` of %s in crop" % (A.show(ix), base[1]))
-                continue
-            ok = sl == 0
-            rep.instance("S2", "Spline::crop", "%s[%s]" % (base[1], A.show(ix)), ok=ok, sample={"file": fe.rel(f), "line": l, "frame": "result"})
-            if not ok:
-                rep.violation(Finding("S2", "Spline::crop", "%s[%s]" % (base[1], A.show(ix)),
-                                      "result vector %s is indexed in the source frame (`%s` moves with i0)" % (base[1], A.show(ix)), f, l))
-    # coverage: every per-segment vector of the source is copied for *every* kept segment (a loop over i in [0, Nseg) reading member[i0 + i])
-    copied = {}
-    for loop in [x for x in A.walk(b) if x.get("kind") == "ForStmt"]:
-        ks = A.kids(loop)
-        var = next((v.get("name") for v in A.kids(ks[0]) if v.get("kind") == "VarDecl"), None) if ks[0].get("kind") == "DeclStmt" else None
-        init = next((A.to_expr(A.kids(v)[-1]) for v in A.kids(ks[0]) if v.get("kind") == "VarDecl" and A.kids(v)), None) if var else None
-        cnd = A.to_expr(ks[2]) if ks[2].get("kind") else None
-        if var is None or init != ("num", 0) or cnd is None:
-            continue
-        full = (cnd[0] == "op" and cnd[1] in ("<", "!=") and cnd[2][0] == "ref" and cnd[2][1] == var and cnd[3][0] == "ref" and cnd[3][1] == "Nseg")
-        if not full:
-            continue
-        def reads(x_):
-            """source members read as member[i0 + i] on every evaluation of the expression (both arms of a conditional)"""
-            out = set()
-            if isinstance(x_, tuple):
-                if x_ and x_[0] == "cond":
-                    g_ = interior(x_[1])
-                    if g_ is not None:
-                        return reads(x_[1]) | reads(x_[2] if g_ else x_[3])
-                    return reads(x_[1]) | (reads(x_[2]) & reads(x_[3]))
-                if x_ and x_[0] == "sub" and member_of_this(x_[1]) in FIVE and len(x_[2]) == 1:
-                    try:
-                        if all(pe.ev(subst(x_[2][0], {k_: v_ for k_, v_ in arith.items() if k_ != var}), {"i0": a_, var: c_}) == a_ + c_ for a_, c_ in ((3, 2), (5, 7))):
-                            out.add(member_of_this(x_[1]))
-                    except pe.PEError:
-                        pass
-                for z in x_[1:]:
-                    out |= reads(z)
-            elif isinstance(x_, list):
-                for z in x_:
-                    out |= reads(z)
-            return out
-
-        def interior(c_):
-            """truth of a condition for a generic interior segment (0 < i < Nseg - 1), None when it is not a test on the loop index"""
-            try:
-                return bool(pe.ev(c_, {var: 5, "Nseg": 11}))
-            except pe.PEError:
-                return None
-
-        def copies(st):
-            """{source member: result vectors} copied for a generic interior segment on every path through the statement"""
-            k_ = st.get("kind")
-            if k_ == "CompoundStmt":
-                out = {}
-                for c_ in A.kids(st):
-                    for m_, rs in copies(c_).items():
-                        out.setdefault(m_, set()).update(rs)
-                return out
-            if k_ == "IfStmt":
-                kk = A.kids(st)
-                g_ = interior(A.to_expr(kk[0]))
-                if g_ is True:
-                    return copies(kk[1])
-                if g_ is False:
-                    return copies(kk[2]) if len(kk) > 2 else {}
-                if len(kk) < 3:
-                    return {}
-                t_, e_ = copies(kk[1]), copies(kk[2])
-                return {m_: t_[m_] | e_[m_] for m_ in t_ if m_ in e_}
-            if k_ in ("BinaryOperator", "CXXOperatorCallExpr", "ExprWithCleanups"):
-                e = A.to_expr(st)
-                if e[0] == "op" and e[1] == "=" and e[2][0] == "sub" and e[2][1][0] == "ref" and e[2][1][1] in result_vecs and len(e[2][2]) == 1 \
-                   and e[2][2][0][0] == "ref" and e[2][2][0][1] == var:
-                    return {m_: {e[2][1][1]} for m_ in reads(e[3])}
-                if e[0] == "op" and e[1] == ",":
-                    out = copies_expr(e[2])
-                    for m_, rs in copies_expr(e[3]).items():
-                        out.setdefault(m_, set()).update(rs)
-                    return out
-            return {}
-
-        def copies_expr(e):
-            if e[0] == "op" and e[1] == "=" and e[2][0] == "sub" and e[2][1][0] == "ref" and e[2][1][1] in result_vecs and len(e[2][2]) == 1 \
-               and e[2][2][0][0] == "ref" and e[2][2][0][1] == var:
-                return {m_: {e[2][1][1]} for m_ in reads(e[3])}
-            return {}
-        for m_, rs in copies(ks[4]).items():
-            copied.setdefault(m_, set()).update(rs)
-    for m_ in FIVE:
-        okc = bool(copied.get(m_))
-        if not okc:
-            # a range constructor / std::copy from the member is a different idiom this rule does not interpret
-            other = [n for n, e in locs.items() if n in result_vecs and m_ in A.show(e)]
-            if other or any(m_ in A.ntext(x) and "copy" in A.ntext(x) for x in A.walk(b) if x.get("kind") == "CallExpr"):
-                rep.broke("S2: %s is transferred to the cropped spline by an idiom other than the per-segment loop; re-confirm the coverage rule" % m_)
-                continue
-        rep.instance("S2", "Spline::crop", "copies %s for every kept segment" % m_, ok=okc, sample={"file": fe.rel(d.file), "line": d.line, "into": sorted(copied.get(m_, []))})
-        if not okc:
-            rep.violation(Finding("S2", "Spline::crop", "copies %s for every kept segment" % m_,
-                                  "no loop over all kept segments copies %s[i0 + i] into the result: interior segments of the cropped spline do not inherit "
-                                  "this per-segment state from the source" % m_, d.file, d.line))
-    # knot times bracketing the first and the last kept source segment, checked against a symbolic knot table
-    tt = {"tta": [], "ttb": []}
-    for x in A.walk(b):
-        if x.get("kind") == "VarDecl" and x.get("name") in tt and A.kids(x):
-            tt[x.get("name")].append((A.to_expr(A.kids(x)[-1]), x))
-    if len(tt["tta"]) != 2 or len(tt["ttb"]) != 2:
-        rep.broke("S2: expected two (tta, ttb) pairs in crop (first and last kept segment), found %d/%d" % (len(tt["tta"]), len(tt["ttb"])))
-        return
-    knots = [2, 5, 9, 14, 20]
-    table = {"this.m_end_t[%d]" % k: v for k, v in enumerate(knots)}
-    for which, (ea, xa), (eb, xb) in (("first", tt["tta"][0], tt["ttb"][0]), ("last", tt["tta"][1], tt["ttb"][1])):
-        bad = None
-        try:
-            for i0 in (0, 1, 2):
-                for nseg in (1, 2, 3):
-                    if i0 + nseg > len(knots):
-                        continue
-                    ta = Fraction(knots[i0] * 2 - 1, 2) if i0 else Fraction(1, 2)
-                    env = dict(table, i0=i0, Nseg=nseg, ta=ta)
-                    k = i0 if which == "first" else i0 + nseg - 1          # source index of the segment being trimmed
-                    start = 0 if k == 0 else knots[k - 1]
-                    want_a = start if (which == "first" or nseg > 1) else ta   # single kept segment: already trimmed to start at ta
-                    want_b = knots[k]
-                    got_a, got_b = pe.ev(ea, env), pe.ev(eb, env)
-                    if (got_a, got_b) != (want_a, want_b) and bad is None:
-                        bad = (i0, nseg, got_a, got_b, want_a, want_b)
-        except pe.PEError as ex:
-            rep.broke("S2: cannot evaluate the %s-segment knot times in crop: %s" % (which, ex))
-            continue
-        f, l = A.loc(xa)
-        rep.instance("S2", "Spline::crop", "%s-segment-knots" % which, ok=bad is None,
-                     sample={"file": fe.rel(f), "line": l, "tta": A.show(ea), "ttb": A.show(eb)})
-        if bad:
-            rep.violation(Finding("S2", "Spline::crop", "%s-segment-knots" % which,
-                                  "for a crop starting in source segment %d keeping %d segment(s), the %s kept segment is taken to span [%s, %s] "
-                                  "but it spans [%s, %s] in the source spline (tta = `%s`, ttb = `%s`)"
-                                  % (bad[0], bad[1], which, bad[2], bad[3], bad[4], bad[5], A.show(ea), A.show(eb)), f, l))
-
-
-# --------------------------------------------------------------------------------------------
-def check_s9(rep, idx):
-    """S9: a one-segment Spline built from control velocities stores as its end pose  g0 * (the segment evaluated at u = 1), by the same
-    cumulative evaluator and basis table operator() uses -- so end(), evaluation beyond t_max and concatenation agree with the curve;
-    FixedCubic's middle coefficient makes exp(V0) exp(V1) exp(V2) = inverse(ga) * gb in the free group."""
-    import c14
-    rep.rule("S9", "Spline constructors store end pose = g0 * segment(u = 1); FixedCubic reaches gb in the free group", minimum=3)
-    ctors = [d for d in idx if d.kind == "CXXConstructorDecl" and d.pattern and d.qname == "Spline::Spline" and d.file and d.file.startswith(fe.INCLUDE)
-             and A.body(d.node) is not None]
-    n_checked = 0
-    for d in ctors:
-        for x in A.walk(A.body(d.node)):
-            if x.get("kind") not in ("BinaryOperator", "CXXOperatorCallExpr"):
-                continue
-            e = A.to_expr(x)
-            if not (e[0] == "op" and e[1] == "=" and e[2][0] == "sub" and member_of_this(e[2][1]) == "m_end_g"):
-                continue
-            rhs = e[3]
-            if member_of_this(rhs) == "m_g0":
-                continue          # K == 0: the curve is constant
-            f, l = A.loc(x)
-            verdict, why = None, "unrecognised end-pose expression %s" % A.show(rhs)[:70]
-            if rhs[0] == "call" and str(rhs[1]).split("::")[-1].split("<")[0] == "composition" and len(rhs[2]) == 2 and member_of_this(rhs[2][0]) == "m_g0":
-                seg = rhs[2][1]
-                nm = str(seg[1]).split("::")[-1].split("<")[0] if seg[0] == "call" else None
-                if nm == "cspline_eval_vs" and len(seg[2]) >= 3:
-                    a0, a1, a2 = seg[2][:3]
-                    cols = (a0[0] == "mcall" and a0[2] == "colwise" and a0[1][0] == "sub" and member_of_this(a0[1][1]) == "m_Vs" and a0[1][2] == [("num", 0)])
-                    basis = a1[0] == "ref" and a1[1] == "kMappedBasisFunction"
-                    try:
-                        at_one = pe.ev(a2, {}) == 1
-                    except pe.PEError:
-                        at_one = False
-                    if cols and basis:
-                        verdict, why = (True, "") if at_one else (False, "the segment is evaluated at u = %s, not at its end u = 1" % A.show(a2))
-                    else:
-                        why = "cspline_eval_vs is called with (%s, %s, ..)" % (A.show(a0)[:30], A.show(a1)[:30])
-                elif nm == "exp" and len(seg[2]) == 1 and "sum" in A.show(seg[2][0]):
-                    verdict, why = False, ("the end pose is g0 * exp(%s): the exponential of the *sum* of the control velocities equals the product of "
-                                           "their exponentials only on commutative groups" % A.show(seg[2][0])[:40])
-            n_checked += 1
-            if verdict is None:
-                rep.broke("S9: %s (%s:%s)" % (why, fe.rel(f), l))
-                continue
-            rep.instance("S9", "Spline::Spline", "end pose @%s" % l, ok=verdict, sample={"file": fe.rel(f), "line": l})
-            if not verdict:
-                rep.violation(Finding("S9", "Spline::Spline", "end pose", why, f, l))
-    if n_checked < 2:
-        rep.broke("S9: found %d end-pose assignments in Spline constructors, expected 2" % n_checked)
-    # FixedCubic
-    fc = funcs(idx, "Spline::FixedCubic")
-    if len(fc) != 1:
-        rep.broke("S9: Spline::FixedCubic not found")
-        return
-    d = fc[0]
-    ps = [p.get("name") for p in A.params(d.node)]      # gb, va, vb, T, ga
-    if len(ps) != 5:
-        rep.broke("S9: FixedCubic has %d parameters" % len(ps))
-        return
-    gb, ga = ps[0], ps[4]
-    subst = {}
-
-    def col_index(e):
-        sign = 1
-        while e[0] == "neg":
-            sign, e = -sign, e[1]
-        if e[0] == "mcall" and e[2] == "col" and len(e[4]) == 1 and e[4][0][0] == "num":
-            return sign, int(e[4][0][1])
-        raise c14.FGErr("tangent argument %s" % A.show(e)[:40])
-
-    def gv(e):
-        if e[0] == "ref":
-            return [(e[1], 1)]
-        if e[0] == "call":
-            f = str(e[1]).split("::")[-1].split("<")[0]
-            if f == "composition":
-                out = []
-                for a in e[2]:
-                    out += gv(a)
-                return c14.fg_reduce(out)
-            if f == "inverse" and len(e[2]) == 1:
-                return c14.fg_inv(gv(e[2][0]))
-            if f == "exp" and len(e[2]) == 1:
-                sg, k = col_index(e[2][0])
-                return [("E%d" % k, sg)]
-        raise c14.FGErr("group expression %s" % A.show(e)[:50])
-    try:
-        for x in A.walk(A.body(d.node)):
-            if x.get("kind") in ("BinaryOperator", "CXXOperatorCallExpr"):
-                e = A.to_expr(x)
-                if e[0] == "op" and e[1] == "=" and e[3][0] == "call" and str(e[3][1]).split("::")[-1].split("<")[0] == "log" and len(e[3][2]) == 1:
-                    sg, k = col_index(e[2])
-                    w = gv(e[3][2][0])
-                    subst["E%d" % k] = w if sg == 1 else c14.fg_inv(w)
-        prod = []
-        for k in range(3):
-            prod += subst.get("E%d" % k, [("E%d" % k, 1)])
-        prod = c14.fg_reduce(prod)
-    except c14.FGErr as ex:
-        rep.broke("S9: cannot interpret FixedCubic: %s" % ex)
-        return
-    ok = prod == [(ga, -1), (gb, 1)]
-    show = " ".join("%s%s" % (s_, "" if e_ == 1 else "^-1") for s_, e_ in prod) or "1"
-    rep.instance("S9", "Spline::FixedCubic", "reaches gb", ok=ok, sample={"file": fe.rel(d.file), "line": d.line, "segment_product": show})
-    if not ok:
-        rep.violation(Finding("S9", "Spline::FixedCubic", "reaches gb",
-                              "exp(V0) exp(V1) exp(V2) reduces to  %s  in the free group; the segment ends at gb only if it is inverse(%s) * %s" % (show, ga, gb), d.file, d.line))
-
-
-# --------------------------------------------------------------------------------------------
-def check_s10(rep, idx):
-    """S10: Spline::make_local() moves the *whole* curve: with stored poses g0 = G, end_g = [G a, G a b] (global frame) the state afterwards
-    must be g0 = 1, end_g = [a, a b] -- decided by abstract execution of the body in the free group."""
-    import c14
-    rep.rule("S10", "Spline::make_local re-expresses every stored pose (m_g0 and each m_end_g[i]) relative to the old start pose", minimum=1)
-    fns = funcs(idx, "Spline::make_local")
-    if len(fns) != 1:
-        rep.broke("S10: Spline::make_local not found")
-        return
-    d = fns[0]
-    state = {"m_g0": [("G", 1)], "m_end_g": [[("G", 1), ("a", 1)], [("G", 1), ("a", 1), ("b", 1)]]}
-    loc = {}
-
-    def gv(e, it=None):
-        if member_of_this(e) == "m_g0":
-            return list(state["m_g0"])
-        if e[0] == "ref":
-            if it is not None and e[1] == it[0]:
-                return list(state["m_end_g"][it[1]])
-            if e[1] in loc:
-                return list(loc[e[1]])
-            raise c14.FGErr("unknown group variable %s" % e[1])
-        if e[0] == "sub" and member_of_this(e[1]) == "m_end_g" and len(e[2]) == 1:
-            if it is not None and e[2][0][0] == "ref" and e[2][0][1] == it[0]:
-                return list(state["m_end_g"][it[1]])
-            if e[2][0][0] == "num":
-                return list(state["m_end_g"][int(e[2][0][1])])
-        if e[0] == "call":
-            f = str(e[1]).split("::")[-1].split("<")[0]
-            if f == "Identity":
-                return []
-            if f == "composition":
-                out = []
-                for a in e[2]:
-                    out += gv(a, it)
-                return c14.fg_reduce(out)
-            if f == "inverse" and len(e[2]) == 1:
-                return c14.fg_inv(gv(e[2][0], it))
-        if e[0] == "mcall" and e[2] == "inverse" and not e[4]:
-            return c14.fg_inv(gv(e[1], it))
-        if e[0] == "op" and e[1] == "*":
-            return c14.fg_reduce(gv(e[2], it) + gv(e[3], it))
-        if e[0] == "ctor" and len(e[2]) == 1:
-            return gv(e[2][0], it)
-        raise c14.FGErr("group expression %s" % A.show(e)[:50])
-
-    def assign(e, it=None):
-        tgt, rhs = e[2], e[3]
-        v = gv(rhs, it)
-        if member_of_this(tgt) == "m_g0":
-            state["m_g0"] = v
-        elif it is not None and ((tgt[0] == "ref" and tgt[1] == it[0]) or (tgt[0] == "sub" and member_of_this(tgt[1]) == "m_end_g" and tgt[2][0][:2] == ("ref", it[0]))):
-            state["m_end_g"][it[1]] = v
-        elif tgt[0] == "ref":
-            loc[tgt[1]] = v
-        else:
-            raise c14.FGErr("assignment target %s" % A.show(tgt)[:40])
-
-    def run(stmts, it=None):
-        for st in stmts:
-            k = st.get("kind")
-            if k == "DeclStmt":
-                for v in A.kids(st):
-                    if v.get("kind") == "VarDecl" and A.kids(v):
-                        try:
-                            loc[v.get("name")] = gv(A.to_expr(A.kids(v)[-1]), it)
-                        except c14.FGErr:
-                            pass          # counters, sizes
-            elif k in ("BinaryOperator", "CXXOperatorCallExpr", "ExprWithCleanups"):
-                e = A.to_expr(st)
-                if e[0] == "op" and e[1] == "=":
-                    assign(e, it)
-                else:
-                    raise c14.FGErr("statement %s" % A.show(e)[:50])
-            elif k == "CompoundStmt":
-                run(A.kids(st), it)
-            elif k == "CXXForRangeStmt":
-                ks = A.kids(st)
-                rng = next((A.to_expr(A.kids(v)[-1]) for c in ks if c.get("kind") == "DeclStmt" for v in A.kids(c)
-                            if (v.get("name") or "").startswith("__range") and A.kids(v)), None)
-                var = next((v.get("name") for c in ks if c.get("kind") == "DeclStmt" for v in A.kids(c)
-                            if v.get("kind") == "VarDecl" and not (v.get("name") or "").startswith("__")), None)
-                if rng is None or member_of_this(rng) != "m_end_g" or var is None:
-                    raise c14.FGErr("range-for over %s" % (A.show(rng)[:30] if rng else "?"))
-                for i in range(len(state["m_end_g"])):
-                    run([ks[-1]], (var, i))
-            elif k == "ForStmt":
-                ks = A.kids(st)
-                var = next((v.get("name") for v in A.kids(ks[0]) if v.get("kind") == "VarDecl"), None) if ks[0].get("kind") == "DeclStmt" else None
-                cnd = A.ntext(ks[2])
-                if var is None or "m_end_g.size()" not in cnd and "size()" not in cnd:
-                    raise c14.FGErr("loop %s" % cnd[:40])
-                for i in range(len(state["m_end_g"])):
-                    run([ks[4]], (var, i))
-            elif k in ("NullStmt",):
-                pass
-            else:
-                raise c14.FGErr("statement kind %s" % k)
-    try:
-        run(A.kids(A.body(d.node)))
-    except c14.FGErr as ex:
-        rep.broke("S10: cannot interpret Spline::make_local: %s" % ex)
-        return
-    want = {"m_g0": [], "m_end_g": [[("a", 1)], [("a", 1), ("b", 1)]]}
-    ok = state == want
-
-    def show(w):
-        return " ".join("%s%s" % (s_, "" if e_ == 1 else "^-1") for s_, e_ in w) or "1"
-    rep.instance("S10", "Spline::make_local", "frame", ok=ok, sample={"file": fe.rel(d.file), "line": d.line, "g0": show(state["m_g0"]), "end_g": [show(w) for w in state["m_end_g"]]})
-    if not ok:
-        rep.violation(Finding("S10", "Spline::make_local", "frame",
-                              "for a two-segment spline with start pose G and knot poses [G a, G a b], make_local() leaves start = %s, knot poses = [%s]; "
-                              "moving the start to the identity requires start = 1, knot poses = [a, a b] (every stored pose multiplied by G^-1 from the left), "
-                              "otherwise the curve jumps at the first knot and end() is wrong" % (show(state["m_g0"]), ", ".join(show(w) for w in state["m_end_g"])),
-                              d.file, d.line))
-
-
-def pe_frac(e, env):
-    t = e[0]
-    if t == "num":
-        return Fraction(e[1])
-    if t == "ref":
-        if e[1] in env:
-            return Fraction(env[e[1]])
-        raise KeyError(e[1])
-    if t == "op":
-        a, b = pe_frac(e[2], env), pe_frac(e[3], env)
-        return {"+": a + b, "-": a - b, "*": a * b, "/": (a / b) if b != 0 else None}[e[1]]
-    if t == "neg":
-        return -pe_frac(e[1], env)
-    if t == "ctor" and len(e[2]) == 1:
-        return pe_frac(e[2][0], env)
-    raise KeyError(A.show(e))
-
-
-def check_s3(rep, idx):
-    rep.rule("S3", "ConstantVelocity: scalar factor on the body velocity is T/K for every degree", minimum=2)
-    d = one(rep, idx, "Spline::ConstantVelocity")
-    if d is None:
-        return
-    found = False
-    for x in A.walk(A.body(d.node)):
-        if x.get("kind") == "VarDecl" and x.get("name") == "V" and A.kids(x):
-            e = A.to_expr(A.kids(x)[-1])
-            f, l = A.loc(x)
-            # V = <scalar factor> * v.replicate(1, K)
-            fac = None
-            if e[0] == "op" and e[1] == "*":
-                for side, other in ((e[2], e[3]), (e[3], e[2])):
-                    if other[0] == "mcall" and other[2] == "replicate":
-                        fac = side
-                        rep_args = other[4]
-            if fac is None:
-                rep.broke("S3: control velocities in ConstantVelocity are not `<factor> * v.replicate(1, K)` any more (%s)" % A.show(e)[:80])
-                return
-            found = True
-            bad = []
-            for K in (1, 2, 3, 4, 5, 7):
-                try:
-                    val = pe_frac(fac, {"T": 11, "K": K})
-                except KeyError as ex:
-                    rep.broke("S3: cannot evaluate factor `%s` (%s)" % (A.show(fac), ex))
-                    return
-                if val is None or val * K != 11:
-                    bad.append(K)
-            ok = not bad and A.show(rep_args[1]) == "K"
-            rep.instance("S3", "Spline::ConstantVelocity", "factor", ok=ok, sample={"file": fe.rel(f), "line": l, "factor": A.show(fac), "columns": A.show(rep_args[1])})
-            if not ok:
-                rep.violation(Finding("S3", "Spline::ConstantVelocity", "factor",
-                                      "control velocities are scaled by `%s`; since sum_{i=1..K} Bcum_i(u) = K*u for the Bernstein cumulative basis the "
-                                      "curve is ga*exp(t*v) only if the factor is T/K -- fails for K in %s" % (A.show(fac), bad), f, l))
-    if not found:
-        rep.broke("S3: local V not found in ConstantVelocity")
-    d2 = one(rep, idx, "Spline::ConstantVelocityGoal")
-    if d2 is not None:
-        ok = False
-        for x in A.walk(A.body(d2.node)):
-            if x.get("kind") == "ReturnStmt":
-                e = A.to_expr(A.kids(x)[0])
-                if e[0] in ("call", "mcall"):
-                    nm = e[1] if e[0] == "call" else e[2]
-                    args = e[2] if e[0] == "call" else e[4]
-                    if str(nm).split("::")[-1] == "ConstantVelocity" and len(args) == 3:
-                        a0 = args[0]
-                        ok = (a0[0] == "op" and a0[1] == "/" and a0[3][0] == "ref" and a0[3][1] == "T" and a0[2][0] == "op" and a0[2][1] == "-"
-                              and a0[2][2][0] == "ref" and a0[2][2][1] == "gb" and a0[2][3][0] == "ref" and a0[2][3][1] == "ga"
-                              and args[1][0] == "ref" and args[1][1] == "T" and args[2][0] == "ref" and args[2][1] == "ga")
-        rep.instance("S3", "Spline::ConstantVelocityGoal", "delegates", ok=ok, sample={"file": fe.rel(d2.file), "line": d2.line})
-        if not ok:
-            rep.violation(Finding("S3", "Spline::ConstantVelocityGoal", "delegates", "ConstantVelocityGoal is not ConstantVelocity((gb - ga) / T, T, ga)", d2.file, d2.line))
-
-
-# ---- S4: optional outputs defined on all paths -------------------------------------------------
-
-def defines(stmt, outs, definers):
-    """set of optional outputs unconditionally defined by one statement"""
-    k = stmt.get("kind")
-    got = set()
-    if k == "IfStmt":
-        ks = A.kids(stmt)
-        c = A.to_expr(ks[0])
-        # if (x.has_value()) { x.value().setZero(); }   /  x->setZero()
-        if c[0] == "mcall" and c[2] == "has_value" and c[1][0] == "ref" and c[1][1] in outs and len(ks) == 2:
-            t = re.sub(r"\s", "", A.text(ks[1]))
-            if re.search(re.escape(c[1][1]) + r"(\.value\(\)\.|->)setZero\(\)", t):
-                got.add(c[1][1])
-    for x in A.walk(stmt):
-        if x.get("kind") in ("CallExpr",):
-            cn = A.callee_name(A.kids(x)[0]) or ""
-            base = cn.split("::")[-1].split("<")[0]
-            if base in definers and k != "IfStmt":
-                for a in A.kids(x)[1:]:
-                    e = A.to_expr(a)
-                    if e[0] == "ref" and e[1] in outs:
-                        got.add(e[1])
-    return got
-
-
-def flow(stmt, defined, outs, definers, report):
-    """returns the set defined after stmt on the fall-through path, or None if no fall-through."""
-    k = stmt.get("kind")
-    if k == "CompoundStmt":
-        cur = set(defined)
-        for s in A.kids(stmt):
-            cur = flow(s, cur, outs, definers, report)
-            if cur is None:
-                return None
-        return cur
-    if k == "ReturnStmt":
-        d = set(defined) | defines(stmt, outs, definers)
-        report(stmt, d)
-        return None
-    if k == "IfStmt":
-        ks = A.kids(stmt)
-        unc = defines(stmt, outs, definers)
-        if unc:
-            return set(defined) | unc
-        thn = flow(ks[1], set(defined), outs, definers, report)
-        els = flow(ks[2], set(defined), outs, definers, report) if len(ks) > 2 else set(defined)
-        if thn is None and els is None:
-            return None
-        if thn is None:
-            return els
-        if els is None:
-            return thn
-        return thn & els
-    if k in ("ForStmt", "CXXForRangeStmt", "WhileStmt"):
-        return set(defined)
-    return set(defined) | defines(stmt, outs, definers)
-
-
-def check_s4(rep, idx, idx_cs, which):
-    rep.rule("S4", "optional outputs vel/acc are defined on every path to a return", minimum=2)
-    # callee: cspline_eval_vs zeroes its outputs unconditionally before use
-    definers = set()
-    for d in funcs(idx_cs, "cspline_eval_vs"):
-        b = A.body(d.node)
-        top = set()
-        for s in A.kids(b):
-            top |= defines(s, {"vel", "acc", "jer"}, set())
-        ok = {"vel", "acc"} <= top
-        rep.instance("S4", "cspline_eval_vs", "zeroes-outputs", ok=ok, sample={"file": fe.rel(d.file), "line": d.line, "defined": sorted(top)})
-        if ok:
-            definers.add("cspline_eval_vs")
-        else:
-            rep.violation(Finding("S4", "cspline_eval_vs", "zeroes-outputs", "optional outputs are not zero-initialised unconditionally (defined: %s)" % sorted(top), d.file, d.line))
-    for d in funcs(idx_cs, "cspline_eval_gs"):
-        t = re.sub(r"\s", "", A.text(A.body(d.node)))
-        if "cspline_eval_vs<K,G>(vs,Bcum,u,vel,acc,jer)" in t and "cspline_eval_vs" in definers:
-            definers.add("cspline_eval_gs")
-    for qn in which:
-        d = one(rep, idx, qn)
-        if d is None:
-            continue
-        bad = []
-
-        def report(ret, dset, bad=bad):
-            miss = {"vel", "acc"} - dset
-            if miss:
-                bad.append((ret, miss))
-        flow(A.body(d.node), set(), {"vel", "acc"}, definers, report)
-        nret = len([x for x in A.walk(A.body(d.node)) if x.get("kind") == "ReturnStmt"])
-        rep.instance("S4", qn, "returns=%d" % nret, ok=not bad, sample={"file": fe.rel(d.file), "line": d.line, "returns": nret})
-        for ret, miss in bad:
-            f, l = A.loc(ret)
-            rep.violation(Finding("S4", qn, "return@%s" % sorted(miss), "optional output(s) %s may be left unset on the path to this return" % sorted(miss), f, l))
-
-
-# ---- S5: dimension analysis ---------------------------------------------------------------------
 
 class DimErr(Exception):
     pass
@@ -779,575 +26,11 @@ class DimErr(Exception):
 POLY = "poly"   # literal: takes the dimension of its context in + - compare
 
 
-def dim_of(e, env, locs, depth=0):
-    """(T exponent, U exponent) or POLY"""
-    if depth > 30:
-        raise DimErr("too deep")
-    t = e[0]
-    if t == "num":
-        return POLY
-    if t == "ref":
-        if e[1] in env:
-            return env[e[1]]
-        if e[1] in locs:
-            return dim_of(locs[e[1]], env, locs, depth + 1)
-        raise DimErr("no dimension for %s" % e[1])
-    if t == "member":
-        key = e[2]
-        if key in env:
-            return env[key]
-        raise DimErr("no dimension for member %s" % key)
-    if t == "sub":
-        return dim_of(e[1], env, locs, depth + 1)
-    if t == "mcall":
-        if e[2] in ("value",) :
-            return dim_of(e[1], env, locs, depth + 1)
-        if e[2] in ("t_max", "t_min"):
-            return (1, 0)
-        if e[2] in ("size",):
-            return (0, 0)
-        raise DimErr("no dimension for call .%s()" % e[2])
-    if t == "call":
-        nm = (e[1] if isinstance(e[1], str) else "") .split("::")[-1].split("<")[0]
-        if nm in ("clamp", "min", "max"):
-            ds = [dim_of(a, env, locs, depth + 1) for a in e[2]]
-            ds = [d for d in ds if d != POLY]
-            if not ds:
-                return POLY
-            if len(set(ds)) != 1:
-                raise DimErr("mixed dimensions in %s" % nm)
-            return ds[0]
-        if nm in ("static_cast", "S", "double", "Scalar"):
-            return dim_of(e[2][0], env, locs, depth + 1)
-        raise DimErr("no dimension for call %s" % nm)
-    if t == "ctor":
-        if len(e[2]) == 1:
-            return dim_of(e[2][0], env, locs, depth + 1)
-        raise DimErr("ctor")
-    if t == "other" and e[1] in ("CXXStaticCastExpr",):
-        raise DimErr("cast")
-    if t == "neg":
-        return dim_of(e[1], env, locs, depth + 1)
-    if t == "cond":
-        a, b = dim_of(e[2], env, locs, depth + 1), dim_of(e[3], env, locs, depth + 1)
-        if a == POLY:
-            return b
-        if b == POLY or a == b:
-            return a
-        raise DimErr("mixed dimensions in ?:")
-    if t == "op":
-        a, b = dim_of(e[2], env, locs, depth + 1), dim_of(e[3], env, locs, depth + 1)
-        if e[1] in ("+", "-"):
-            if a == POLY:
-                return b
-            if b == POLY or a == b:
-                return a
-            raise DimErr("adding %s and %s in %s" % (a, b, A.show(e)[:60]))
-        za = (0, 0) if a == POLY else a
-        zb = (0, 0) if b == POLY else b
-        if e[1] == "*":
-            return (za[0] + zb[0], za[1] + zb[1])
-        if e[1] == "/":
-            return (za[0] - zb[0], za[1] - zb[1])
-    raise DimErr("cannot type %s" % A.show(e)[:60])
-
-
 def fmt(d):
     if d == POLY:
         return "1"
     return "T^%d U^%d" % d
 
-
-def scale_sites(body, name):
-    """compound assignments `name.value() op= E` / `*name op= E`"""
-    out = []
-    for x in A.walk(body):
-        if x.get("kind") in ("CompoundAssignOperator", "CXXOperatorCallExpr", "BinaryOperator"):
-            e = A.to_expr(x)
-            if e[0] == "op" and e[1] in ("*=", "/=") and name in A.refs(e[2]) and e[2][0] in ("mcall", "un"):
-                out.append((e[1], e[3], x))
-    return out
-
-
-def check_s5_spline(rep, idx):
-    rep.rule("S5", "chain rule: velocity scaled by dU/dT, acceleration by its square; u is a spline parameter", minimum=3)
-    d = one(rep, idx, "Spline::operator()")
-    if d is None:
-        return
-    b = A.body(d.node)
-    locs = local_defs(b)
-    env = {"t": (1, 0), "m_end_t": (1, 0), "m_seg_T0": (0, 1), "m_seg_Del": (0, 1)}
-    _scale_rule(rep, "Spline::operator()", b, locs, env, vel_dim=(-1, 1), acc_dim=(-2, 2))
-    # u must be a spline parameter [U]
-    if "u" in locs:
-        try:
-            du = dim_of(locs["u"], env, locs)
-            ok = du == (0, 1)
-            msg = fmt(du)
-        except DimErr as ex:
-            ok, msg = None, str(ex)
-        f, l = d.file, d.line
-        if ok is None:
-            rep.broke("S5: cannot type `u` in Spline::operator(): %s" % msg)
-        else:
-            rep.instance("S5", "Spline::operator()", "u", ok=ok, sample={"expr": A.show(locs["u"])[:100], "dimension": msg})
-            if not ok:
-                rep.violation(Finding("S5", "Spline::operator()", "u", "segment parameter u = %s has dimension %s, expected U (T0 + Del*(t-ta)/T)" % (A.show(locs["u"])[:80], msg), f, l))
-    else:
-        rep.broke("S5: local u not found in Spline::operator()")
-
-
-def _scale_rule(rep, qn, b, locs, env, vel_dim, acc_dim):
-    for name, want in (("vel", vel_dim), ("acc", acc_dim)):
-        sites = scale_sites(b, name)
-        f0 = None
-        if len(sites) != 1:
-            rep.instance("S5", qn, name + "-scale", ok=False, sample={"sites": len(sites)})
-            rep.violation(Finding("S5", qn, name + "-scale",
-                                  "%s is re-scaled %d time(s) after evaluation in the spline parameter; exactly one chain-rule factor is required" % (name, len(sites)), None, None))
-            continue
-        op, ex, node = sites[0]
-        f, l = A.loc(node)
-        # the factor must be applied whenever this output is requested: no enclosing condition on anything but <name>.has_value()
-        par = {}
-        for p_ in A.walk(b):
-            for c_ in A.kids(p_):
-                par[id(c_)] = p_
-        cur, foreign = node, None
-        while id(cur) in par:
-            p_ = par[id(cur)]
-            if p_.get("kind") == "IfStmt":
-                c_ = A.to_expr(A.kids(p_)[0])
-                others = sorted(r_ for r_ in A.refs(c_) if r_ != name and r_ in ("vel", "acc", "jer"))
-                in_else = len(A.kids(p_)) > 2 and A.kids(p_)[2] is cur
-                if others:
-                    foreign = (A.show(c_)[:60] + (" [else]" if in_else else ""), p_)
-            cur = p_
-        if foreign:
-            ff, fl = A.loc(foreign[1])
-            rep.instance("S5", qn, name + "-scale-guard", ok=False, sample={"file": fe.rel(ff), "line": fl, "guard": foreign[0]})
-            rep.violation(Finding("S5", qn, name + "-scale-guard",
-                                  "the chain-rule factor of %s is applied only under `%s`: when %s is requested without the other output it is returned in the "
-                                  "spline parameter's units" % (name, foreign[0], name), ff, fl))
-        try:
-            dd = dim_of(ex, env, locs)
-        except DimErr as e:
-            rep.broke("S5: cannot type chain-rule factor `%s` in %s: %s" % (A.show(ex), qn, e))
-            continue
-        if dd == POLY:
-            dd = (0, 0)
-        eff = dd if op == "*=" else (-dd[0], -dd[1])
-        ok = eff == want
-        rep.instance("S5", qn, name + "-scale", ok=ok, sample={"file": fe.rel(f), "line": l, "factor": op + " " + A.show(ex), "dimension": fmt(eff), "expected": fmt(want)})
-        if not ok:
-            rep.violation(Finding("S5", qn, name + "-scale",
-                                  "%s is scaled by `%s %s` of dimension %s; the chain rule from spline parameter to time needs %s" % (name, op, A.show(ex), fmt(eff), fmt(want)), f, l))
-
-
-def check_s5_bspline(rep, idx):
-    rep.rule("S5", "chain rule: velocity scaled by dU/dT, acceleration by its square; u is a spline parameter", minimum=3)
-    d = one(rep, idx, "BSpline::operator()")
-    if d is None:
-        return
-    b = A.body(d.node)
-    locs = local_defs(b)
-    env = {"t": (1, 0), "m_t0": (1, 0), "m_dt": (1, 0), "istar": (0, 0)}
-    # knot-interval parameter is dimensionless: U == 1, so vel needs T^-1, acc T^-2
-    _scale_rule(rep, "BSpline::operator()", b, locs, env, vel_dim=(-1, 0), acc_dim=(-2, 0))
-    # u in the interior branch
-    ok_u = None
-    for x in A.walk(b):
-        if x.get("kind") in ("BinaryOperator", "CXXOperatorCallExpr"):
-            e = A.to_expr(x)
-            if e[0] == "op" and e[1] == "=" and e[2] == ("ref", "u", e[2][2] if len(e[2]) > 2 else None) and e[3][0] == "call":
-                try:
-                    du = dim_of(e[3], env, locs)
-                    ok_u = (du in ((0, 0), POLY), fmt(du), A.show(e[3]), x)
-                except DimErr as ex:
-                    rep.broke("S5: cannot type interior u in BSpline::operator(): %s" % ex)
-    if ok_u is None:
-        rep.broke("S5: interior assignment to u not found in BSpline::operator()")
-    else:
-        f, l = A.loc(ok_u[3])
-        rep.instance("S5", "BSpline::operator()", "u", ok=ok_u[0], sample={"file": fe.rel(f), "line": l, "expr": ok_u[2][:100], "dimension": ok_u[1]})
-        if not ok_u[0]:
-            rep.violation(Finding("S5", "BSpline::operator()", "u", "knot-interval parameter u = %s has dimension %s, expected dimensionless" % (ok_u[2][:80], ok_u[1]), f, l))
-
-
-def check_s5_crop(rep, idx):
-    d = one(rep, idx, "Spline::crop")
-    if d is None:
-        return
-    b = A.body(d.node)
-    env = {"ta": (1, 0), "tb": (1, 0), "tta": (1, 0), "ttb": (1, 0), "sa": (1, 0), "sb": (1, 0), "seg_T0": (0, 1), "seg_Del": (0, 1),
-           "m_end_t": (1, 0), "end_t": (1, 0), "m_seg_T0": (0, 1), "m_seg_Del": (0, 1)}
-    n = 0
-    for x in A.walk(b):
-        if x.get("kind") in ("CompoundAssignOperator", "CXXOperatorCallExpr", "BinaryOperator"):
-            e = A.to_expr(x)
-            if e[0] == "op" and e[1] in ("+=", "*=", "=") and e[2][0] == "sub" and e[2][1][0] == "ref" and e[2][1][1] in ("seg_T0", "seg_Del", "end_t"):
-                f, l = A.loc(x)
-                try:
-                    dl = dim_of(e[2], env, {})
-                    dr = dim_of(e[3], env, {})
-                except DimErr as ex:
-                    rep.broke("S5: cannot type `%s` in crop: %s" % (A.show(e)[:80], ex))
-                    continue
-                if e[1] == "*=":
-                    ok = dr in ((0, 0), POLY)
-                    want = "dimensionless factor"
-                else:
-                    ok = dr == dl or dr == POLY
-                    want = fmt(dl)
-                n += 1
-                rep.instance("S5", "Spline::crop", "%s %s" % (A.show(e[2]), e[1]), ok=ok, sample={"file": fe.rel(f), "line": l, "rhs": A.show(e[3])[:80], "dimension": fmt(dr), "expected": want})
-                if not ok:
-                    rep.violation(Finding("S5", "Spline::crop", "%s %s" % (A.show(e[2]), e[1]),
-                                          "`%s` has right-hand side of dimension %s, expected %s" % (A.show(e)[:100], fmt(dr), want), f, l))
-    if n < 5:
-        rep.broke("S5: only %d re-parameterisation assignments found in crop (>=5 confirmed by hand)" % n)
-
-
-def exec_stmt(stmt, env):
-    """Abstractly execute assignments / if-chains over scalar locals with exact rationals (pe.ev)."""
-    k = stmt.get("kind")
-    if k == "CompoundStmt":
-        for c in A.kids(stmt):
-            exec_stmt(c, env)
-    elif k == "IfStmt":
-        ks = A.kids(stmt)
-        if pe.ev(A.to_expr(ks[0]), env):
-            exec_stmt(ks[1], env)
-        elif len(ks) > 2:
-            exec_stmt(ks[2], env)
-    elif k in ("BinaryOperator", "CXXOperatorCallExpr", "CompoundAssignOperator"):
-        e = A.to_expr(stmt)
-        if e[0] == "op" and e[1] == "=" and e[2][0] == "ref":
-            env[e[2][1]] = pe.ev(e[3], env)
-        else:
-            raise pe.PEError("unsupported statement %s" % A.show(e)[:60])
-    elif k in ("DeclStmt", "NullStmt"):
-        for v in A.kids(stmt):
-            if v.get("kind") == "VarDecl" and A.kids(v):
-                env[v.get("name")] = pe.ev(A.to_expr(A.kids(v)[-1]), env)
-    else:
-        raise pe.PEError("unsupported statement kind %s" % k)
-
-
-def check_s6(rep, idx):
-    rep.rule("S6", "concat_*: segment i of `other` lands in slot N1+i of all five vectors; end times shifted by t_max", minimum=2)
-    for qn in ("Spline::concat_global", "Spline::concat_local"):
-        d = one(rep, idx, qn)
-        if d is None:
-            continue
-        b = A.body(d.node)
-        locs = local_defs(b)
-        seen = {}
-        for x in A.walk(b):
-            if x.get("kind") in ("BinaryOperator", "CXXOperatorCallExpr"):
-                e = A.to_expr(x)
-                if e[0] == "op" and e[1] == "=" and e[2][0] == "sub" and member_of_this(e[2][1]) in FIVE and "i" in A.refs(e[2][2][0]):
-                    m = member_of_this(e[2][1])
-                    okk = True
-                    try:
-                        # destination slot == size() + i for the value N1 holds (this->size() before the resize)
-                        for (n1, iv) in ((7, 0), (7, 3), (2, 5)):
-                            env = {"i": iv}
-                            if "N1" in locs:
-                                env["N1"] = n1
-                            env["this.size()"] = n1
-                            if pe.ev(e[2][2][0], env) != n1 + iv:
-                                okk = False
-                    except pe.PEError:
-                        okk = False
-                    srcs = [(bs, ix) for bs, ix, _ in subscripts(x) if bs[0] == "member" and bs[1][0] == "ref" and bs[1][1] == "other"]
-                    try:
-                        okk = okk and len(srcs) == 1 and srcs[0][0][2] == m and all(pe.ev(srcs[0][1], {"i": iv}) == iv for iv in (0, 4))
-                    except pe.PEError:
-                        okk = False
-                    if m == "m_end_t":
-                        tdeps = dep_names(e[3], locs)
-                        okk = okk and "t_max" in re.sub(r"\s", "", " ".join(A.show(locs[n]) for n in tdeps if n in locs) + A.show(e[3]))
-                        okk = okk and e[3][0] == "op" and e[3][1] == "+"
-                    if m == "m_end_g" and qn.endswith("local"):
-                        gdeps = dep_names(e[3], locs)
-                        okk = okk and any(re.sub(r"\s", "", A.show(locs[n])) in ("this.end()", "this.m_end_g.back()") for n in gdeps if n in locs) \
-                            and e[3][0] == "call" and (e[3][1] or "").split("::")[-1] == "composition"
-                    seen[m] = (okk, A.show(e)[:100], x)
-        # snapshots (t_max(), end()) must be taken before this spline is modified
-        first_write = None
-        for x in A.walk(b):
-            if x.get("kind") in ("BinaryOperator", "CXXOperatorCallExpr", "CallExpr", "CXXMemberCallExpr"):
-                e = A.to_expr(x)
-                tgt = None
-                if e[0] == "op" and e[1] == "=":
-                    t0 = e[2]
-                    while t0[0] in ("sub", "mcall"):
-                        t0 = t0[1]
-                    tgt = member_of_this(t0)
-                elif e[0] == "mcall" and e[2] in ("resize", "push_back", "reserve") and member_of_this(e[1]):
-                    tgt = member_of_this(e[1])
-                if tgt in FIVE + ["m_g0"]:
-                    ln = A.loc(x)[1]
-                    first_write = ln if first_write is None else min(first_write, ln)
-        late = []
-        for x in A.walk(b):
-            if x.get("kind") == "VarDecl" and A.kids(x) and x.get("name") in dep_names(("init", [v[2] if False else ("ref", "tend", None), ("ref", "gend", None)]), {}):
-                pass
-        for x in A.walk(b):
-            if x.get("kind") == "VarDecl" and A.kids(x):
-                init = A.to_expr(A.kids(x)[-1])
-                reads_state = any(m in re.sub(r"\s", "", A.show(init)) for m in ("this.t_max()", "this.end()", "this.m_end_g", "this.m_g0", "this.m_end_t"))
-                used = any(x.get("name") in A.refs(A.to_expr(v[2])) for v in seen.values())
-                if reads_state and used and first_write is not None and A.loc(x)[1] > first_write:
-                    late.append(x)
-        ok = set(seen) == set(FIVE) and all(v[0] for v in seen.values()) and not late
-        for x in late:
-            fx, lx = A.loc(x)
-            rep.violation(Finding("S6", qn, "snapshot-order",
-                                  "`%s` reads this spline's end time/pose after the spline has already been modified (first modification at line %s): "
-                                  "appended segments are placed relative to the wrong junction" % (A.text(x)[:70], first_write), fx, lx))
-        rep.instance("S6", qn, "copy-loop", ok=ok, sample={"file": fe.rel(d.file), "line": d.line, "assignments": {k: v[1] for k, v in seen.items()}})
-        if not (set(seen) == set(FIVE) and all(v[0] for v in seen.values())):
-            badm = [k for k in FIVE if k not in seen or not seen[k][0]]
-            x = seen[badm[0]][2] if badm and badm[0] in seen else None
-            f, l = A.loc(x) if x else (d.file, d.line)
-            rep.violation(Finding("S6", qn, "copy-loop", "appended segments are not copied slot-for-slot (size()+i <- other[i], end times shifted by t_max%s) for %s: %s"
-                                  % (", end poses composed with end()" if qn.endswith("local") else "", badm,
-                                     seen[badm[0]][1] if badm and badm[0] in seen else "assignment missing"), f, l))
-
-
-def check_q2(rep, idx):
-    rep.rule("Q2", "BSpline: t_max = t0 + (N-K)*dt; window = drop(istar) | take(K+1); out-of-range clamps to the end intervals with u in {0,1}", minimum=3)
-    d = one(rep, idx, "BSpline::t_max")
-    if d is not None:
-        rets = [x for x in A.walk(A.body(d.node)) if x.get("kind") == "ReturnStmt"]
-        ok = len(rets) == 1
-        vals = []
-        if ok:
-            e = A.to_expr(A.kids(rets[0])[0])
-            try:
-                for (t0, dt, N, K) in ((5, 3, 17, 4), (-2, Fraction(1, 2), 9, 1), (0, 7, 6, 5)):
-                    v = pe.ev(e, {"m_t0": t0, "m_dt": dt, "this.m_ctrl_pts.size()": N, "K": K})
-                    vals.append(str(v))
-                    if v != t0 + (N - K) * dt:
-                        ok = False
-            except pe.PEError as ex:
-                rep.broke("Q2: cannot evaluate BSpline::t_max return expression: %s" % ex)
-                ok = None
-        if ok is not None:
-            rep.instance("Q2", "BSpline::t_max", "formula", ok=ok, sample={"file": fe.rel(d.file), "line": d.line, "values": vals})
-            if not ok:
-                rep.violation(Finding("Q2", "BSpline::t_max", "formula", "t_max() is not t0 + (number of control points - K) * dt", d.file, d.line))
-    d = one(rep, idx, "BSpline::operator()")
-    if d is None:
-        return
-    b = A.body(d.node)
-    # window: the range handed to cspline_eval_gs is ctrl_pts | drop(istar) | take(K+1) (| transform)
-    okw = None
-    for x in A.walk(b):
-        if x.get("kind") == "CallExpr" and (A.callee_name(A.kids(x)[0]) or "").startswith("cspline_eval_gs"):
-            rng = A.kids(x)[1]
-            drops, takes = [], []
-            for y in A.walk(rng):
-                if y.get("kind") == "CallExpr":
-                    cn = (A.callee_name(A.kids(y)[0]) or "").split("::")[-1]
-                    if cn == "drop":
-                        drops.append(A.to_expr(A.kids(y)[1]))
-                    elif cn == "take":
-                        takes.append(A.to_expr(A.kids(y)[1]))
-                elif y.get("kind") == "CXXOperatorCallExpr" and len(A.kids(y)) == 3:
-                    # range adaptor objects: std::views::drop(n) is operator() on the object `drop`
-                    obj = A.strip(A.kids(y)[1])
-                    cn = obj.get("referencedDecl", {}).get("name") if obj.get("kind") == "DeclRefExpr" else None
-                    if cn == "drop":
-                        drops.append(A.to_expr(A.kids(y)[2]))
-                    elif cn == "take":
-                        takes.append(A.to_expr(A.kids(y)[2]))
-            try:
-                okw = (len(drops) == 1 and len(takes) == 1 and drops[0][0] == "ref" and drops[0][1] == "istar"
-                       and all(pe.ev(takes[0], {"K": kk}) == kk + 1 for kk in (1, 4, 6))
-                       and "m_ctrl_pts" in A.ntext(rng))
-            except pe.PEError:
-                okw = False
-            f, l = A.loc(x)
-            rep.instance("Q2", "BSpline::operator()", "window", ok=okw, sample={"file": fe.rel(f), "line": l, "drop": [A.show(z) for z in drops], "take": [A.show(z) for z in takes]})
-            if not okw:
-                rep.violation(Finding("Q2", "BSpline::operator()", "window", "evaluation window is not the K+1 control points starting at istar (drop %s, take %s)"
-                                      % ([A.show(z) for z in drops], [A.show(z) for z in takes]), f, l))
-    if okw is None:
-        rep.broke("Q2: call of cspline_eval_gs not found in BSpline::operator()")
-    # clamping: abstractly execute the statements up to the evaluation for all relevant interval indices
-    pre = []
-    for sst in A.kids(b):
-        if sst.get("kind") == "DeclStmt" and any(v.get("name") in ("pcb", "Bum") for v in A.kids(sst)):
-            break
-        pre.append(sst)
-    bad = None
-    n_cases = 0
-    try:
-        for (N, K) in ((5, 3), (8, 1), (12, 6), (3, 2)):
-            for j in range(-3, N + 3):
-                frac = Fraction(1, 3)
-                t0, dt = Fraction(2), Fraction(1, 2)
-                tt = t0 + (j + frac) * dt
-                env = {"t": tt, "m_t0": t0, "m_dt": dt, "this.m_ctrl_pts.size()": N, "K": K}
-                # the truncating conversion int64_t((t - t0)/dt): model floor toward zero explicitly
-                envs = dict(env)
-                for sst in pre:
-                    if sst.get("kind") == "DeclStmt":
-                        for v in A.kids(sst):
-                            if v.get("kind") == "VarDecl" and A.kids(v):
-                                val = pe.ev(A.to_expr(A.kids(v)[-1]), envs)
-                                if v.get("name") == "istar":
-                                    val = Fraction(int(val))      # conversion to an integer type truncates
-                                envs[v.get("name")] = val
-                    else:
-                        exec_stmt(sst, envs)
-                n_cases += 1
-                jt = int((tt - t0) / dt)   # truncation toward zero, as the cast does
-                if jt < 0:
-                    want = (0, 0)
-                elif jt > N - K - 1:
-                    want = (N - K - 1, 1)
-                else:
-                    want = (jt, (tt - t0 - jt * dt) / dt)
-                    want = (want[0], max(Fraction(0), min(Fraction(1), want[1])))
-                got = (envs.get("istar"), envs.get("u"))
-                if got != want and bad is None:
-                    bad = (N, K, j, got, want)
-    except pe.PEError as ex:
-        rep.broke("Q2: cannot abstractly execute the interval selection of BSpline::operator(): %s" % ex)
-        return
-    rep.instance("Q2", "BSpline::operator()", "clamping", ok=bad is None, sample={"file": fe.rel(d.file), "line": d.line, "cases": n_cases})
-    if bad:
-        rep.violation(Finding("Q2", "BSpline::operator()", "clamping",
-                              "with %d control points, degree %d and t in knot interval %d the evaluation uses (istar,u)=%s; the curve definition requires %s "
-                              "(end values outside [t_min,t_max], window inside the control points)" % (bad[0], bad[1], bad[2], tuple(map(str, bad[3])), tuple(map(str, bad[4]))), d.file, d.line))
-
-
-def check_s7(rep, idx):
-    rep.rule("S7", "Spline::crop: start pose and segment end poses of the result are expressed in the same frame", minimum=2)
-    d = one(rep, idx, "Spline::crop")
-    if d is None:
-        return
-    b = A.body(d.node)
-    g0 = None
-    ends = []
-    for x in A.walk(b):
-        if x.get("kind") in ("BinaryOperator", "CXXOperatorCallExpr"):
-            e = A.to_expr(x)
-            if e[0] == "op" and e[1] == "=":
-                if e[2][0] == "member" and e[2][2] == "m_g0" and e[2][1][0] == "ref" and e[2][1][1] == "ret":
-                    g0 = (e[3], x)
-                if e[2][0] == "sub" and e[2][1][0] == "ref" and e[2][1][1] == "end_g":
-                    ends.append((e[3], x))
-    if g0 is None or len(ends) < 2:
-        rep.broke("S7: start-pose / end-pose assignments of the cropped spline not found (g0=%s, end poses=%d)" % (g0 is not None, len(ends)))
-        return
-
-    def strip_move(e):
-        if e[0] == "call" and str(e[1]).split("::")[-1] == "move" and len(e[2]) == 1:
-            return e[2][0]
-        return e
-    e0 = g0[0]
-    ok0 = (e0[0] == "cond" and e0[1][0] == "ref" and e0[1][1] == "localize" and str(e0[2]).find("Identity") >= 0 and strip_move(e0[3])[0] == "ref")
-    f, l = A.loc(g0[1])
-    rep.instance("S7", "Spline::crop", "m_g0", ok=ok0, sample={"file": fe.rel(f), "line": l, "expr": A.show(e0)[:80]})
-    if not ok0:
-        rep.broke("S7: start pose of the cropped spline is no longer `localize ? Identity : x(ta)` (%s); rule needs re-confirmation" % A.show(e0)[:80])
-        return
-    ga = strip_move(e0[3])[1]
-    for e, x in ends:
-        f, l = A.loc(x)
-        ok = False
-        if e[0] == "cond" and e[1][0] == "ref" and e[1][1] == "localize":
-            loc_e, glob_e = e[2], e[3]
-            # localized: inverse(ga) composed with the global pose
-            if loc_e[0] == "call" and str(loc_e[1]).split("::")[-1] == "composition" and len(loc_e[2]) == 2:
-                inv, rest = loc_e[2]
-                ok = (inv[0] == "call" and str(inv[1]).split("::")[-1] == "inverse" and inv[2][0][0] == "ref" and inv[2][0][1] == ga
-                      and A.show(rest) == A.show(glob_e))
-        rep.instance("S7", "Spline::crop", "end_g@%s" % A.show(e)[:40], ok=ok, sample={"file": fe.rel(f), "line": l, "expr": A.show(e)[:120]})
-        if not ok:
-            rep.violation(Finding("S7", "Spline::crop", "end_g",
-                                  "segment end pose `%s` is not `localize ? inverse(%s)*X : X`: with localize=false the start pose stays %s (global frame) "
-                                  "but this end pose is expressed relative to it, so later segments are offset" % (A.show(e)[:100], ga, ga), f, l))
-
-
-def check_s8(rep, idx):
-    rep.rule("S8", "arclength integrates each segment over [T0, T0 + Del*(min(t,tb)-ta)/(tb-ta)] with the derivative coefficients [3a3, 2a2, a1]", minimum=2)
-    d = one(rep, idx, "Spline::arclength")
-    if d is None:
-        return
-    b = A.body(d.node)
-    loops = [x for x in A.walk(b) if x.get("kind") == "ForStmt"]
-    if not loops:
-        rep.broke("S8: segment loop not found in arclength")
-        return
-    locs = local_defs(loops[0])
-    loop_vars = set()
-    for lp in loops:
-        init = A.kids(lp)[0]
-        if init.get("kind") == "DeclStmt":
-            loop_vars |= {v.get("name") for v in A.kids(init) if v.get("kind") == "VarDecl"}
-    seg_var = next(iter({v.get("name") for v in A.kids(A.kids(loops[0])[0]) if v.get("kind") == "VarDecl"}), "i") if A.kids(loops[0])[0].get("kind") == "DeclStmt" else "i"
-    calls = [x for x in A.walk(b) if x.get("kind") == "CallExpr" and (A.callee_name(A.kids(x)[0]) or "").split("::")[-1] == "integrate_absolute_polynomial"]
-    if len(calls) != 1:
-        rep.broke("S8: expected one call of integrate_absolute_polynomial in arclength, found %d" % len(calls))
-        return
-    e = A.to_expr(calls[0])
-    args = e[2]
-    f, l = A.loc(calls[0])
-
-    def inl(x, depth=0):
-        if depth > 20 or not isinstance(x, tuple):
-            return x
-        if x[0] == "ref" and x[1] in locs and x[1] not in ("coefs", "i", "k") and x[1] not in loop_vars:
-            return inl(locs[x[1]], depth + 1)
-        return tuple(inl(y, depth) if isinstance(y, tuple) else ([inl(z, depth) for z in y] if isinstance(y, list) else y) for y in x)
-    lo, hi = inl(args[0]), inl(args[1])
-    bad = None
-    try:
-        T0, Del, ta, tb = Fraction(1, 4), Fraction(1, 2), Fraction(2), Fraction(5)
-        for t in (Fraction(5, 2), Fraction(4), Fraction(5), Fraction(7), Fraction(100)):
-            env = {"t": t, seg_var: 1, "this.m_seg_T0[1]": T0, "this.m_seg_Del[1]": Del, "this.m_end_t[0]": ta, "this.m_end_t[1]": tb}
-            glo, ghi = pe.ev(lo, env), pe.ev(hi, env)
-            wlo, whi = T0, T0 + Del * (min(t, tb) - ta) / (tb - ta)
-            if (glo, ghi) != (wlo, whi) and bad is None:
-                bad = (t, glo, ghi, wlo, whi)
-    except pe.PEError as ex:
-        rep.broke("S8: cannot evaluate the integration bounds of arclength: %s" % ex)
-        return
-    rep.instance("S8", "Spline::arclength", "bounds", ok=bad is None, sample={"file": fe.rel(f), "line": l, "lower": A.show(lo)[:80], "upper": A.show(hi)[:120]})
-    if bad:
-        rep.violation(Finding("S8", "Spline::arclength", "bounds",
-                              "for a segment with parameter range [T0, T0+Del] = [1/4, 3/4] spanning t in [2, 5], arclength(%s) integrates over [%s, %s]; "
-                              "the curve traversed up to that time is [%s, %s] (an end-cropped segment must not be integrated past its cropped end)"
-                              % (bad[0], bad[1], bad[2], bad[3], bad[4]), f, l))
-    # integrand: derivative coefficients, decided by evaluating the three coefficient arguments on a symbolic coefficient table
-    ok = False
-    pat = [A.show(a) for a in args[2:]]
-    try:
-        kname = next((v for v in loop_vars if v != seg_var), "k")
-        tab = {}
-        for r, val in ((1, 13), (2, 11), (3, 7), (0, 5)):
-            tab["coefs(%d, %s)" % (r, kname)] = val
-            tab["coefs[%d, %s]" % (r, kname)] = val
-        vals = [pe.ev(a, tab) for a in args[2:]]
-        ok = vals == [21, 22, 13]
-    except pe.PEError as ex:
-        rep.broke("S8: cannot evaluate the integrand coefficients of arclength: %s" % ex)
-        return
-    okc = "coefs" in locs and re.sub(r"\s", "", A.show(locs["coefs"])) in ("(kMappedBasisFunction.rightCols(K)*this.m_Vs[i].transpose())",)
-    rep.instance("S8", "Spline::arclength", "integrand", ok=ok and okc, sample={"args": pat, "coefs": A.show(locs.get("coefs", ("num", 0)))[:100]})
-    if not ok:
-        rep.violation(Finding("S8", "Spline::arclength", "integrand", "velocity polynomial passed as %s; d/du (a0+a1 u+a2 u^2+a3 u^3) has coefficients (3 a3, 2 a2, a1)" % pat, f, l))
-    elif not okc:
-        rep.broke("S8: coefficient matrix in arclength is no longer kMappedBasisFunction<K>.rightCols(K) * m_Vs[i].transpose(); re-derive the integrand rule")
-
-
-# ---- X1: derivative recursion of the cumulative product, in a free Lie-algebra normal form ------------------------
 
 class XErr(Exception):
     pass
